@@ -75,7 +75,7 @@ ScanOK(h) ==
          LET r == CountScan(n, a, W, mode, Pos(h, S))
          IN /\ Assert(r.res = CountIn(h, S), <<"CountScan # scalar", h, a, mode, S, r.res>>)
             /\ Assert(r.reads \subseteq 1..n, <<"CountScan reads outside the slice", h, a, mode, S, r.reads>>)
-    /\ \A k \in DOMAIN PairK : \A d \in 1..D :
+    /\ \A k \in 1..2 : \A d \in 1..D :       \* different bytes, equal bytes
          LET r == PairScan(n, a, d, W, mode, Pos(h, {PairK[k][1]}), Pos(h, {PairK[k][2]}))
          IN /\ Assert(r.res = MemchrPair(h, PairK[k][1], PairK[k][2], d), <<"PairScan # scalar", h, a, mode, k, d, r.res>>)
             /\ Assert(r.reads \subseteq 1..n, <<"PairScan reads outside the slice", h, a, mode, k, d, r.reads>>)
